@@ -124,20 +124,32 @@ def run(ctx):
     only = os.environ.get("GV_C30_ONLY")
     names = [n for n in SCENARIOS if not only or n in only.split(",")]
     t0 = time.time()
-    total_execs = total_points = 0
-    completed = []
-    outcomes = 0
-    for idx, name in enumerate(names):
+    total_execs = total_points = outcomes = 0
+    completed = {}
+    stats_all = {"interrupted": 0}
+    bases = {}
+
+    def explore(name, bnd, deadline):
         scn = SCENARIOS[name]
-        share = t0 + budget * (idx + 1) / len(names)
-        ex = schedx.Explorer(ctx.binary, scn["script"], horizon, bound, lambda res, prefix, cost, name=name, scn=scn: check_exec(ctx, name, scn, res, prefix, cost),
-                             deadline=share)
-        # determinism: default schedule, one preemption, one timer deviation replayed twice
+
+        def chk(res, prefix, cost):
+            if any("interrupted" in schedx.status_of(m) for m in res["responses"]):
+                stats_all["interrupted"] += 1
+            check_exec(ctx, name, scn, res, prefix, cost)
+        ex = schedx.Explorer(ctx.binary, scn["script"], horizon, bnd, chk, deadline=deadline)
+        ex.explore()
+        return ex
+
+    # pass 1: determinism, then every schedule with at most one deviation, for every scenario (no time cap)
+    first = {}
+    for name in names:
+        scn = SCENARIOS[name]
         base = schedx.run_exec(ctx.binary, scn["script"], [], horizon)
         if not base["trace"]:
             raise Machinery(f"{name}: empty trace: {base['end']} {base.get('stderr', '')[:300]}")
-        probes = [[]]
+        bases[name] = base
         ch = [p["choice"] for p in base["trace"]]
+        probes = [[]]
         for i, p in enumerate(base["trace"]):
             if len(p["alts"]) > 1:
                 probes.append(ch[:i] + [1])
@@ -147,21 +159,39 @@ def run(ctx):
             if tix:
                 probes.append(ch[:i] + [tix[0]])
                 break
-        ex.determinism(probes)
-        ex.explore()
+        schedx.Explorer(ctx.binary, scn["script"], horizon, 0, lambda *a: None).determinism(probes)
+        first[name] = explore(name, 1, None)
+        completed[name] = first[name].completed_bound
+    # pass 2: deeper bounds, in priority order, within the time budget
+    final = dict(first)
+    for depth in range(2, bound + 1):
+        for idx, name in enumerate(names):
+            left = t0 + budget - time.time()
+            if left <= 0:
+                break
+            share = time.time() + left / (len(names) - idx)
+            ex = explore(name, depth, share)
+            if ex.completed_bound >= depth:
+                completed[name] = depth
+                final[name] = ex
+            elif ex.execs > final[name].execs:
+                final[name] = ex
+    for name in names:
+        ex = final[name]
         total_execs += ex.execs
         total_points += ex.points
         outcomes += len(ex.outcomes)
-        completed.append(ex.completed_bound)
         ctx.outcome(f"{name}: executions", ex.execs)
         ctx.outcome(f"{name}: distinct response sequences", len(ex.outcomes))
         for e, n in ex.ends.items():
             ctx.outcome(f"{name}: end={e}", n)
-        ctx.bound(f"{name}: bound completed / executions by cost / longest trace", [ex.completed_bound, ex.by_cost, ex.max_len])
-        if ex.capped:
-            ctx.cap(f"{name}: {ex.capped}")
-        if not ctx.cov["samples"] or len(ctx.cov["samples"]) < 3:
-            ctx.sample({"scenario": name, "script": scn["script"], "default_schedule_points": [f"{p['by']}:{p['label']}" for p in base["trace"]][:60]})
+        ctx.bound(f"{name}: bound completed / executions by cost / longest trace", [completed[name], ex.by_cost, ex.max_len])
+        if completed[name] < bound:
+            ctx.cap(f"{name}: deviation bound {completed[name]} completed, bound {completed[name] + 1} explored partially ({ex.by_cost.get(completed[name] + 1, 0)} schedules) within the time budget")
+        if len(ctx.cov["samples"]) < 3:
+            ctx.sample({"scenario": name, "script": SCENARIOS[name]["script"], "default_schedule": [f"{t}:{l}" for (i, t, l, to) in schedx.executed_ops(bases[name])][:80]})
+    completed = list(completed.values())
+    seen_interrupted = stats_all["interrupted"]
     ctx.bound("deviation_bound_completed_all_scenarios", min(completed))
     if outcomes <= len(names) and total_execs > 50 * len(names):
         raise Machinery(f"vacuous: only {outcomes} distinct observable response sequences over {total_execs} schedules")
